@@ -446,7 +446,34 @@ pub fn execute(scn: &Scn, property: &str) -> RunOutcome {
                         out.count("probe.landed_exactly_on_end");
                     }
                 }
-                if !band && now.ended != expected {
+                // Landing exactly on the end instant with one step: entered the state (time in
+                // state 0), then a single advance by exactly the total duration - where "exactly"
+                // is unambiguous, i.e. the total is itself an f32 (no delay, no repetition: the
+                // longest cycle duration) - must end the animation, on or off the grid. (Below
+                // 1/64 s an f32 step is finer than the animator's nanosecond clock; the step is
+                // not exactly representable there.)
+                if let (Op::Advance(dt), Some(m)) = (op, spec.states[cur].as_ref()) {
+                    let simple = !m.parts.is_empty() && m.parts.iter().all(|p| p.delay == 0.0 && p.repeat == Rep::None);
+                    if simple && prev.tau == Duration::ZERO && prev.state.index() == cur {
+                        let u32_total = m.parts.iter().map(|p| p.duration).fold(0.0f32, f32::max);
+                        if dt.to_bits() == u32_total.to_bits() && u32_total >= 1.0 / 64.0 {
+                            out.count("probe.single_step_of_exactly_the_total");
+                            if !now.ended && v.is_none() {
+                                v = Some(viol(
+                                    "C07",
+                                    "not-ended-after-a-step-of-exactly-the-total",
+                                    step,
+                                    format!(
+                                        "state {cur}: entered, then advance({dt:?}) where {dt:?} is exactly the timeline's total duration: is_ended() is false (time in state {:?})",
+                                        c07_tau
+                                    ),
+                                    format!("phase={after_phase:?}"),
+                                ));
+                            }
+                        }
+                    }
+                }
+                if !band && now.ended != expected && v.is_none() {
                     let clause = match total {
                         Some(None) => "ended-although-infinite",
                         None => "not-ended-without-timeline",
@@ -633,7 +660,7 @@ pub fn execute(scn: &Scn, property: &str) -> RunOutcome {
                 // keyframe that property, which would hide the write from the whole-state check).
                 if let Some(m) = spec.states[model.cur].as_ref() {
                     if m.parts.len() >= 2 || step % 4 == 0 {
-                        let t = now.tau.as_secs_f32();
+                        let t = now.tau.as_secs_f64() as f32;
                         for (ci, part) in m.parts.iter().enumerate() {
                             let probe = catch(|| {
                                 let mut tl = part.build();
@@ -881,7 +908,7 @@ pub fn execute(scn: &Scn, property: &str) -> RunOutcome {
 /// `simmodel::oracle` (documented semantics, no mina frame lookup) against the observed values.
 fn reference_mismatch(spec: &AnimSpec, model: &Model, observed: &Vals, out: &mut RunOutcome) -> Option<String> {
     let m = spec.states[model.cur].as_ref()?;
-    let t = model.tau.as_secs_f32();
+    let t = model.tau.as_secs_f64() as f32;
     if !(t < 1.0e6) {
         return None;
     }
